@@ -350,6 +350,22 @@ func TestCheck(t *testing.T) {
 		sc := sc
 		list = append(list, report.Scenario{Name: sc.name(), Bound: sc.bound, Prune: true, Wrap: report.Bubble(t), Body: func(r *explore.Run) { body(r, sc, rep) }})
 	}
+	// API-call-level interleavings of the claim reconciler, the XR reconciler
+	// and the user's deletion of the claim (thread mode, preemption bounded).
+	pre := 2
+	if report.Thorough() {
+		pre = 3
+	}
+	rep.Bound("interleaving_preemptions", pre)
+	for _, ssa := range []bool{false, true} {
+		for _, in := range []string{"fresh", "bound"} {
+			for _, del := range []bool{false, true} {
+				ssa, in, del := ssa, in, del
+				name := fmt.Sprintf("interleave/ssa=%v/%s/user-deletes=%v", ssa, in, del)
+				list = append(list, report.Scenario{Name: name, Bound: pre, Wrap: report.Bubble(t), Body: func(r *explore.Run) { interleaveBody(r, rep, name, ssa, in, del, 2) }})
+			}
+		}
+	}
 	rep.SelfCheck(t, list[0], nil)
 	rep.RunScenarios(t, list)
 	rep.Write(t)
